@@ -40,6 +40,7 @@ type orderTracer struct {
 }
 
 func (o *orderTracer) ItemQueued(_ string, item int) {
+	vsched.Yield("h:metrics") // the tracer is outside code: other tasks may run while it is called
 	o.mu.Lock()
 	o.order = append(o.order, item)
 	o.mu.Unlock()
